@@ -418,7 +418,12 @@ def make_synth(i: int, spec) -> type:
     classes = builtin_classes()
     kind = spec[0]
 
-    class Synth(grid.CFGrid1D):
+    # a spec with a third element 'arakawa' extends the generic ArakawaC constructed with explicit
+    # coordinate_names (its check is still the constant the spec says): the constructor path of the
+    # generic class is then part of the binding histories
+    base = _arakawa_with_names() if (len(spec) > 2 and spec[2] == 'arakawa') else grid.CFGrid1D
+
+    class Synth(base):
         @classmethod
         def check_dataset(cls, dataset):
             if kind == 'c':
@@ -431,6 +436,19 @@ def make_synth(i: int, spec) -> type:
     return Synth
 
 
+def _arakawa_with_names() -> type:
+    """The generic ArakawaC can only be constructed with explicit `coordinate_names=`; histories
+    construct it through this thin subclass (same detection behaviour: it defines no class-level
+    coordinate_names), so that the constructor path of the generic class is exercised too."""
+    from emsarray.conventions import arakawa_c, shoc
+
+    class ArakawaC(arakawa_c.ArakawaC):   # noqa: N801 - same name on purpose
+        def __init__(self, dataset):
+            super().__init__(dataset, coordinate_names={
+                k.value: v for k, v in shoc.ShocStandard.coordinate_names.items()})
+    return ArakawaC
+
+
 def class_table(syn: dict) -> dict:
     """token -> class, for the shipped classes and the synthetic ones of this case"""
     tbl = dict(builtin_classes())
@@ -439,6 +457,6 @@ def class_table(syn: dict) -> dict:
     return tbl
 
 
-SPEC_POOL = [['c', None], ['c', 10], ['c', 20], ['c', 30], ['c', 40], ['c', 5], ['c', 30], ['c', 10],
+SPEC_POOL = [['c', None, 'arakawa'], ['c', None], ['c', 10, 'arakawa'], ['c', 10], ['c', 20], ['c', 30], ['c', 40], ['c', 5], ['c', 30], ['c', 10],
              ['l', 'CFGrid2D', 20], ['l', 'CFGrid1D', 10], ['l', 'UGrid', 30], ['l', 'ShocSimple', 35],
              ['l', 'ShocStandard', 30], ['l', 'CFGrid2D', 30]]
